@@ -132,15 +132,34 @@ def check_property(prop, cfg, tier="quick", seed=0):
     cmds = []
     extra_cov = {}
     try:
+        def do_structural(unit, uname):
+            # structural obligations are decided on the token stream of /repo: they do not depend on whether the unit's functions could be extracted or verified
+            try:
+                scs = build.structural_checks(unit)
+            except Exception as e:
+                tool_errors.append("unit %s: structural checks: %s" % (uname, e)); return
+            for sc in scs:
+                if prop not in props_of_obl(sc["id"]): continue
+                obligations[sc["id"]] = {"unit": uname, "clause": "structural: " + sc["why"] + " -- " + sc["detail"], "instances": 1, "kind": "structural"}
+                if sc["ok"]: discharged.add(sc["id"])
+                elif sc["lost"]: tool_errors.append("unit %s: structural anchor lost: %s" % (uname, sc["id"]))
+                else:
+                    violations.append({"property": prop, "obligation": sc["id"], "unit": uname, "item": None, "verus_message": "structural obligation failed",
+                                       "sites": [{"item": None, "file": None, "line": None, "stmt": sc["detail"]}], "clause": sc["why"], "verus_output": sc["detail"],
+                                       "counterexample": None, "note": "decided by the extractor on the token stream"})
         for uname in cfg.get("units", []):
             u = run_unit(uname, work, tier)
             if u.error:
-                tool_errors.append("unit %s: %s" % (uname, u.error)); continue
+                tool_errors.append("unit %s: %s" % (uname, u.error))
+                try: do_structural(build.load_unit(uname), uname)
+                except Exception as e: tool_errors.append("unit %s: structural checks: %s" % (uname, e))
+                continue
             g = u.gen
             cmds.append(re.sub(r"/tmp/\S+/", "<scratch>/", u.res["cmd"]))
             if u.cls["tool_errors"]:
                 for t in u.cls["tool_errors"][:5]:
                     tool_errors.append("unit %s: verus: %s" % (uname, t["msg"]))
+                do_structural(g.unit, uname)
                 continue
             for d in u.cls["undecided"]:
                 undecided.append("unit %s: %s" % (uname, d["msg"]))
@@ -171,16 +190,7 @@ def check_property(prop, cfg, tier="quick", seed=0):
                         knowns.append((kn[0], rec))
                     else:
                         violations.append(rec)
-            # structural obligations (decided on the token stream)
-            for sc in build.structural_checks(g.unit):
-                if prop not in props_of_obl(sc["id"]): continue
-                obligations[sc["id"]] = {"unit": uname, "clause": "structural: " + sc["why"] + " -- " + sc["detail"], "instances": 1, "kind": "structural"}
-                if sc["ok"]: discharged.add(sc["id"])
-                elif sc["lost"]: tool_errors.append("unit %s: structural anchor lost: %s" % (uname, sc["id"]))
-                else:
-                    violations.append({"property": prop, "obligation": sc["id"], "unit": uname, "item": None, "verus_message": "structural obligation failed",
-                                       "sites": [{"item": None, "file": None, "line": None, "stmt": sc["detail"]}], "clause": sc["why"], "verus_output": sc["detail"],
-                                       "counterexample": None, "note": "decided by the extractor on the token stream"})
+            do_structural(g.unit, uname)
             # vacuity
             for kind, (exp, seen, terr) in u.canary.items():
                 canary_total += len(exp); canary_seen += len([c for c in exp if c in seen])
